@@ -31,6 +31,16 @@ Theorem C09_ro_sequence_never_mutates : forall ps,
 Proof. exact ro_sequence_never_mutates. Qed.
 Print Assumptions C09_ro_sequence_never_mutates.
 
+(* which EXTENDED requests can modify anything is decided by the extension name, byte for byte: whatever bytes arrive, if the
+   decoder (codec A, the one the servers use) yields a request that can reach a modifying os call, the name in the packet IS
+   "posix-rename@openssh.com" or "hardlink@openssh.com" - no other spelling (letter case, padding) is such a request.
+   Tied by c09's near-miss names (tree untouched) and by c06/c08 decoding such names with both the code and this decoder. *)
+Theorem C09_modifying_extensions_by_exact_name : forall payload p,
+  dec_ext_A payload = Ok p -> may_mutate p = true ->
+  ext_name payload = Some n_posix_rename \/ ext_name payload = Some n_hardlink.
+Proof. exact ext_modifying_only_exact_names. Qed.
+Print Assumptions C09_modifying_extensions_by_exact_name.
+
 (* the pinned tree violated the property (finding F2, repaired): hardlink, OPEN READ|CREAT, OPEN READ|TRUNC *)
 Theorem C09_pinned_tree_refuted :
   (gate false (PExtHardlink 1 [] []) = true /\ may_mutate (PExtHardlink 1 [] []) = true) /\
